@@ -34,6 +34,22 @@ CODE_TO_EXC = {
 ALL_CODES = sorted(CODE_TO_EXC)
 
 
+class SimCredentials(ga_credentials.Credentials):
+    """Refreshable credentials (what a real application has): google-auth's AuthorizedSession answers an HTTP 401 by
+    refreshing them and RE-SENDING the same request, below api-core's retry layer."""
+
+    def __init__(self, sim):
+        super().__init__()
+        self.sim = sim
+        self.n = 0
+        self.token = "sim-token-0"
+
+    def refresh(self, request):
+        self.n += 1
+        self.token = f"sim-token-{self.n}"
+        self.sim.ev("credentials_refreshed", op=CURRENT_OP.get(), n=self.n)
+
+
 def add_in_place_edits(rng, actors, p=0.4, kinds=("unary", "sstream", "lro", "flat")):
     """Caller behaviour: within one actor, a later call of the same RPC re-submits the request OBJECT of the earlier
     call after editing it in place (op['mutate_of']).  Sequential within an actor, so it is legal for asyncio too."""
@@ -126,6 +142,7 @@ class Run:
         self.sim = simgrpc.Sim(None)
         self.sim.numeric_enums = bool((world.spec.get("options") or {}).get("rest-numeric-enums"))
         self.sim.json_pool = world.codec.pool
+        self.sim.http_error_body = scenario.get("http_error_body")      # None (google.rpc JSON) | "html" | "empty"
         self.server = server_factory(self)
         self.sim.server = self.server
         self.clients = {}
@@ -266,7 +283,8 @@ class Run:
         if key not in self.clients:
             svc = self.world.services[service]
             if kind == "rest":
-                tr = svc["rest"](credentials=ga_credentials.AnonymousCredentials(), host=self.sc.get("rest_host", "sim.invalid"),
+                creds = SimCredentials(self.sim) if self.sc.get("credentials") == "refreshable" else ga_credentials.AnonymousCredentials()
+                tr = svc["rest"](credentials=creds, host=self.sc.get("rest_host", "sim.invalid"),
                                  url_scheme=self.sc.get("url_scheme", "https"))
                 self.clients[key] = svc["sync"](transport=tr)
             else:
